@@ -241,10 +241,17 @@ def object_verdicts(pc: np.ndarray, o: Any, scale: float) -> Tuple[np.ndarray, n
     position, between bottom and top."""
     pts = outline_of(o)
     box = O.box_of(o)
-    if pts is None:
+    q = o.state.orientation
+    tilted = abs(q.x) > 1e-12 or abs(q.y) > 1e-12
+    if pts is None and not tilted:
         return box_verdicts_fast(pc, box, scale)
-    c, s_ = math.cos(box[3]), math.sin(box[3])
-    poly = [(box[0] + c * x * scale - s_ * y * scale, box[1] + s_ * x * scale + c * y * scale) for x, y in pts]
+    if pts is None:
+        w_, l_ = float(o.state.size[0]), float(o.state.size[1])
+        pts = [(l_ / 2, w_ / 2), (-l_ / 2, w_ / 2), (-l_ / 2, -w_ / 2), (l_ / 2, -w_ / 2)]
+    # outline points turned by the object's full orientation (a tilted box shows a sheared outline from above), moved to
+    # its position; the vertical extent stays position +- height / 2
+    Rm = G.quat_to_matrix((q.w, q.x, q.y, q.z))
+    poly = [(box[0] + float(Rm[0, 0] * x * scale + Rm[0, 1] * y * scale), box[1] + float(Rm[1, 0] * x * scale + Rm[1, 1] * y * scale)) for x, y in pts]
     inside = np.zeros(len(pc), dtype=bool)
     decided = np.ones(len(pc), dtype=bool)
     for k in range(len(pc)):
@@ -511,8 +518,10 @@ def run(ctx: Ctx) -> None:
         for idx in ctx.indices("outlines", 60 if ctx.quick else 6000):
             r = ctx.rng("outlines", idx)
             w, l, h = r.uniform(0.8, 2.5), r.uniform(2.0, 8.0), r.uniform(1.0, 3.0)
-            kind = r.choice(["from_rear_end", "polygon_offcentre", "polygon_l_shape"])
-            if kind == "from_rear_end":
+            kind = r.choice(["from_rear_end", "polygon_offcentre", "polygon_l_shape", "tilted_box", "tilted_box"])
+            if kind == "tilted_box":
+                pts, stype = [], ShapeType.BOUNDING_BOX
+            elif kind == "from_rear_end":
                 pts = [(l, w / 2), (0.0, w / 2), (0.0, -w / 2), (l, -w / 2)]
                 stype = ShapeType.BOUNDING_BOX
             elif kind == "polygon_offcentre":
@@ -522,8 +531,12 @@ def run(ctx: Ctx) -> None:
             else:
                 pts = [(l / 2, w / 2), (-l / 2, w / 2), (-l / 2, -w / 2), (0.0, -w / 2), (0.0, 0.0), (l / 2, 0.0)]
                 stype = ShapeType.POLYGON
-            o = O.obj3d(r.uniform(-40, 40), r.uniform(-40, 40), r.uniform(-1, 1), O.rand_yaw(r), w, l, h, uuid="outline")
-            o.state.shape = Shape(stype, (w, l, h), _Polygon([(x, y, 0.0) for x, y in pts] + [(pts[0][0], pts[0][1], 0.0)]))
+            if kind == "tilted_box":
+                # an ordinary box on a slope / bank: pitch and roll next to the yaw
+                o = O.obj3d(r.uniform(-40, 40), r.uniform(-40, 40), r.uniform(-1, 1), O.rand_yaw(r), w, l, h, uuid="outline", pitch=r.uniform(-0.3, 0.3), roll=r.uniform(-0.2, 0.2))
+            else:
+                o = O.obj3d(r.uniform(-40, 40), r.uniform(-40, 40), r.uniform(-1, 1), O.rand_yaw(r), w, l, h, uuid="outline")
+                o.state.shape = Shape(stype, (w, l, h), _Polygon([(x, y, 0.0) for x, y in pts] + [(pts[0][0], pts[0][1], 0.0)]))
             scale = r.choice([1.0, 1.0, 0.7, 1.5, 2.2])
             box = O.box_of(o)
             n = r.choice([40, 200])
